@@ -53,6 +53,10 @@ def doc_of(c):
         if m["kind"] == "soft":
             a = FP.required_area_units(m, S) * u * u
             d["area"] = float(a) if m["floats"] else X.num(a)
+            if m.get("split"):
+                # the same required area given per region (parts that add up to it): the module needs the total
+                tot = sum(k for _, k in m["split"])
+                d["area"] = {t: float(a * k / tot) if m["floats"] else X.num(a * k / tot) for t, k in m["split"]}
         elif m["kind"] == "hard":
             d["hard"] = True
         else:
@@ -427,6 +431,8 @@ def run_floorplan(c):
         kinds = [m["kind"] for m in c["modules"]]
         for k in set(kinds):
             cls.append("kind-" + k)
+        if any(m.get("split") and any(t != "_" for t, _ in m["split"]) for m in c["modules"]):
+            cls.append("required-area-given-per-region")
         if any(m["floats"] for m in c["modules"]) and any(not m["floats"] for m in c["modules"]):
             cls.append("ints-and-floats")
         if any(m["kind"] == "hard" and sum(m["struct"].values()) > 0 for m in c["modules"]):
@@ -454,10 +460,14 @@ def case_s(draw):
         nb = sum(m["struct"].values())
         if nb >= 2 and draw(st.booleans()):
             m["order"] = list(draw(st.permutations(list(range(nb)))))
+        if m["kind"] == "soft" and draw(_i(0, 2)) == 0:
+            tags = draw(st.sampled_from([["_", "DSP"], ["LUT", "BRAM", "DSP"], ["DSP"], ["_"], ["BRAM", "_"]]))
+            m["split"] = [[t, draw(_i(1, 5))] for t in tags]
     return c
 
 
 def subchecks():
     return [Sub("floorplans", run_floorplan, strategy=case_s(), n_quick=3000, n_thorough=60000, shrink_quick=True,
                 required=tuple("viol-" + k for k in VIOLATIONS) + ("kind-soft", "kind-hard", "kind-fixed", "multi-rect-hard",
-                                                                    "multi-rect-fixed", "ints-and-floats", "two-sides-with-two-branches", "hard-branches-listed-out-of-order", "three-branches-on-one-side"))]
+                                                                    "multi-rect-fixed", "ints-and-floats", "two-sides-with-two-branches", "hard-branches-listed-out-of-order", "three-branches-on-one-side",
+                                                                    "required-area-given-per-region"))]
